@@ -216,6 +216,22 @@ func synFrames(err error, text, path string) (frames string, depth int, textOK b
 	return strings.Join(parts, ","), len(chain), textOK, detail
 }
 
+// synRangesOK: every range of a tree carries the text and path it was parsed from, and Extract() is the slice.
+func synRangesOK(ranges []directives.Range, text, path string) (bool, string) {
+	for _, r := range ranges {
+		if zeroRange(r) && r.Text == "" {
+			continue
+		}
+		if r.Text != text || r.Path != path {
+			return false, fmt.Sprintf("range [%d,%d) does not carry the input text/path", r.Start, r.End)
+		}
+		if r.Start < 0 || r.End < r.Start || r.End > len(text) || r.Extract() != text[r.Start:r.End] {
+			return false, fmt.Sprintf("range [%d,%d) cannot be extracted", r.Start, r.End)
+		}
+	}
+	return true, ""
+}
+
 // implParse runs the real parser as syntax.ParseFile does (New, Advance, ParseFile), with recover and a watchdog.
 func implParse(text, path string) synResult {
 	ch := make(chan synResult, 1)
@@ -245,22 +261,7 @@ func implParse(text, path string) synResult {
 		var w synWalk
 		root := w.file(f)
 		res.Dump = root.Dump()
-		res.TextOK = true
-		for _, r := range w.ranges {
-			if zeroRange(r) && r.Text == "" {
-				continue
-			}
-			if r.Text != text || r.Path != path {
-				res.TextOK = false
-				res.Detail = fmt.Sprintf("range [%d,%d) does not carry the input text/path", r.Start, r.End)
-				break
-			}
-			if r.Start < 0 || r.End < r.Start || r.End > len(text) || r.Extract() != text[r.Start:r.End] {
-				res.TextOK = false
-				res.Detail = fmt.Sprintf("range [%d,%d) cannot be extracted", r.Start, r.End)
-				break
-			}
-		}
+		res.TextOK, res.Detail = synRangesOK(w.ranges, text, path)
 	}()
 	select {
 	case r := <-ch:
@@ -983,6 +984,11 @@ func runC07(c *Ctx) {
 		}
 	}
 
+	if os.Getenv("C07_STREAMS") == "loader" { // development aid: only the loader stream
+		x.loader()
+		return
+	}
+
 	// ---- stream utf8: DecodeRuneInString against Utf8.decodeAll
 	nU := c.N(3000, 60000)
 	for i := 0; i < nU; i++ {
@@ -1142,6 +1148,13 @@ func runC07(c *Ctx) {
 		x.bt.Flush()
 	}
 	x.bt.Flush()
+
+	// ---- stream loader: include trees on disk through syntax.ParseFileRecursively / syntax.ParseFile under schedule
+	// perturbation, the predicates on every delivered tree and error (c07loader.go)
+	t0 := time.Now()
+	x.loader()
+	x.bt.Flush()
+	c.Extra["loader_wall_s"] = time.Since(t0).Seconds()
 
 	// ---- directed search around inputs on which code and model disagree: all prefixes, all one-position
 	// edits; the monitors run on each, so a property failure near the disagreement is found if there is one
